@@ -608,6 +608,7 @@ fn main() {
     r.assume("a node without a rack belongs to one shared 'no rack' rack of its datacenter (counted and walked consistently); a node without a datacenter is in no datacenter");
     r.assume("rings where two nodes own the same token: ring order between the owners is undefined - only per-DC NTS answers (duplicates in different DCs) and the mutual agreement of len/iteration/nth/choose are checked there");
     r.assume("LocalStrategy / unknown strategies: one replica, the token's owner (the driver's documented fallback)");
+    r.assume("exhaustive = the canonical small-topology space was covered without a cap; the additional sweep over 5..12-node clusters is SAMPLED (seeded) and is not what the coverage claim rests on");
     r.sample(json!({"cluster": topos[topos.len() / 2].concrete(&SPELLINGS[0]).to_json()}));
     r.sample(json!({"cluster": topos[topos.len() - 1].concrete(&SPELLINGS[0]).to_json()}));
     r.finish();
